@@ -75,7 +75,7 @@ pub fn replay(path: &str) -> i32 {
 
 /// corpus: committed regression cases `/verif/corpus/<Cxx>/*.json` in the replay format
 pub fn corpus(prop: &str) -> Vec<(String, Vec<u64>)> {
-    let dir = format!("{}/corpus/{}", crate::core::VERIF_DIR, prop);
+    let dir = format!("{}/corpus/{}", crate::core::verif_dir(), prop);
     let mut out = vec![];
     if let Ok(rd) = std::fs::read_dir(&dir) {
         let mut names: Vec<_> = rd.filter_map(|e| e.ok()).map(|e| e.path()).filter(|p| p.extension().map(|x| x == "json").unwrap_or(false)).collect();
